@@ -181,7 +181,10 @@ def _invariant_loop(X, st, fr, ls, forinfo):
     if is_for:
         X.assume(seq.n >= 0)
     for gname, (GT, ginit, gstep) in ls.ghost.items():
-        ghostvals[gname] = spec.eval_spec(X, ginit, env_for(idx0), fr.module)
+        if callable(ginit):
+            ghostvals[gname] = ginit(X, env_for(idx0))
+        else:
+            ghostvals[gname] = spec.eval_spec(X, ginit, env_for(idx0), fr.module)
         X.named_ghosts[gname] = ghostvals[gname]
     from .spec import oblige_split
     for name, role, f in inv_formulas(idx0):
@@ -248,6 +251,7 @@ def _invariant_loop(X, st, fr, ls, forinfo):
     else:
         t = X.truth(X.ev(st.test, fr))
         X.assume(X._z(t))
+    env_head = env_for(idx)
     dec0 = None
     if ls.decreases:
         dec0 = X.num(spec.eval_spec(X, ls.decreases, env_for(idx), fr.module))
@@ -265,8 +269,12 @@ def _invariant_loop(X, st, fr, ls, forinfo):
         X.oblige('%s:loop%d.non-interference' % (fname, k), X._z(eqf),
                  kind='loop-non-interference', role='prop')
     nidx = idx + 1 if is_for else idx
+    now = env_for(idx)
     for gname, (GT, ginit, gstep) in ls.ghost.items():
-        ghostvals[gname] = spec.eval_spec(X, gstep, env_for(idx), fr.module)
+        if callable(gstep):
+            ghostvals[gname] = gstep(X, now, env_head)
+        else:
+            ghostvals[gname] = spec.eval_spec(X, gstep, now, fr.module)
     for name, role, f in inv_formulas(nidx):
         oblige_split(X, '%s:loop%d.preserve.%s' % (fname, k, name), f, 'loop-preserve', role)
     if dec0 is not None:
